@@ -5,6 +5,7 @@ from ..rules_tomo import B1_B2_counts, B3_reembed, W1_W2_builders, W11_fitter_us
 
 def run(tree, rep, tier):
     flow = Flow(tree)
+    flow.describe(rep)
     B1_B2_counts(rep, flow, want=("B2",))
     B3_reembed(rep, flow)
     P_rules(rep, flow, which=("P3",))
